@@ -18,7 +18,7 @@ RULE = (
     "distinct = distinct cell tuples / distinct sequence shapes"
 )
 ASSUMPTIONS = ["EMPTY_ACK_DELAY is 0.1 s (read from the library at run time)", "simulated one-way latency 1 ms"]
-REQUIRED_MONITORS = {"multicast_con_request_suppressed": 4, "table_cell": 500, "table_cell_busy_peer": 100, "mid_boundary": 100, "duplicate_delivery": 100, "token_reuse": 50, "misfit_same_mid": 10, "con_never_to_multicast": 500, "sequence": 50, "noninterference": 50, "response_object_returned_again": 68}
+REQUIRED_MONITORS = {"multicast_con_request_suppressed": 4, "table_cell": 500, "table_cell_busy_peer": 100, "mid_boundary": 100, "duplicate_delivery": 100, "token_reuse": 50, "misfit_same_mid": 10, "con_never_to_multicast": 500, "sequence": 50, "noninterference": 50, "response_object_returned_again": 84}
 EXHAUSTIVE = {"single_message_table": "types x codes x token known/unknown x unicast/multicast x delays x No-Response x result class as enumerated by cells()"}
 
 CON, NON, ACK, RST = 0, 1, 2, 3
@@ -106,7 +106,7 @@ def plan(tier, seed):
 
 
 # results that do not come out of a handler's return statement: the library builds these responses itself
-SPECIAL_RESULTS = {"raise-4.00": 128, "raise-5.03": 163, "crash-5.00": 160, "missing-4.04": 132, "method-4.05": 133, "tuning-cls-2.05": 69, "tuning-inst-2.05": 69, "unser-5.00": 160, "cached-2.05": 69}
+SPECIAL_RESULTS = {"raise-4.00": 128, "raise-5.03": 163, "crash-5.00": 160, "missing-4.04": 132, "method-4.05": 133, "tuning-cls-2.05": 69, "tuning-inst-2.05": 69, "unser-5.00": 160, "cached-2.05": 69, "cachedblk-2.05": 69, "cachedblkq-2.05": 69}
 
 
 def eff_code(rcode):
@@ -224,7 +224,12 @@ class Node:
             opts.append((11, {"missing-4.04": b"nope", "method-4.05": b"getonly"}.get(rcode, b"r")))
             if nr is not None:
                 opts.append((258, rc.uint_bytes(nr)))
-            if rcode in SPECIAL_RESULTS:
+            if rcode in ("cachedblk-2.05", "cachedblkq-2.05"):
+                # the kept response is 40 bytes long; the second form of the request asks for it in 16-byte blocks
+                payload = b"d=%s;c=69;p=%s;x=cached" % (repr(d).encode(), b"z" * 40)
+                if rcode == "cachedblkq-2.05":
+                    opts.append((23, rc.block_bytes(0, False, 0)))
+            elif rcode in SPECIAL_RESULTS:
                 if rcode.startswith("tuning-"):
                     # the handler's response carries an "unreliable" transport tuning, as class or as instance
                     payload = b"d=%s;c=%d;p=x;tt=%s" % (repr(d).encode(), eff_code(rcode), rcode.split("-")[1].encode())
@@ -348,7 +353,7 @@ def cell_key(cell):
     cls = "empty" if code == 0 else "request" if code <= 31 else "response" if 64 <= code <= 191 else "reserved"
     extra = ""
     if cls == "request" and typ in (CON, NON):
-        extra = "-" + ("fast" if d < 0.1 else "slow") + ("-noresp" if suppressed(nr, rcode) else "") + ("-response-object-reused" if rcode == "cached-2.05" else "")
+        extra = "-" + ("fast" if d < 0.1 else "slow") + ("-noresp" if suppressed(nr, rcode) else "") + ("-response-object-reused" if rcode == "cached-2.05" else "-block-of-reused-response-object" if str(rcode).startswith("cachedblk") else "")
     if cls == "response":
         extra = "-" + ("known" if known else "unknown") + ("-mc4" if mc == "v4" else "-mc" if mc else "") + ("-" + nr if isinstance(nr, str) else "")
     return "%s-%s%s" % ("CON NON ACK RST".split()[typ], cls, extra)
@@ -549,13 +554,15 @@ def run_shard(shard, rep, only=None):
     # ... and the first of the requests carries a No-Response option that suppresses the response: what was noted on
     # the object for that request says nothing about the later ones
     pairs += [((t1, d1, 26), b, None) for (t1, d1) in kinds for b in kinds] + [((t1, d1, 2), b, None) for (t1, d1) in kinds[:1] + kinds[2:3] for b in kinds[:1] + kinds[2:3]]
+    # ... and the later request asks for the kept response in blocks (what goes out is a copy cut from the kept object)
+    pairs += [((t1, d1, None, "cachedblk-2.05"), (t2, d2, None, "cachedblkq-2.05"), None) for (t1, d1) in kinds for (t2, d2) in kinds]
     for j, trio in enumerate(pairs):
         if j % shard["of"] != shard["index"]:
             continue
         case = ["cached", j]
         if only is not None and only != case:
             continue
-        seq = [(x[0], 1, False, False, x[1], x[2] if len(x) > 2 else None, "cached-2.05") for x in trio if x is not None]
+        seq = [(x[0], 1, False, False, x[1], x[2] if len(x) > 2 else None, x[3] if len(x) > 3 else "cached-2.05") for x in trio if x is not None]
         res, box = run_sequence(seq, shard["seed"] * 7349 + j, rep, case, gap=1.5)
         if not res.ok:
             if res.horizon:
